@@ -5,7 +5,9 @@ package hcpc
 import (
 	"math/big"
 
+	sdkmath "cosmossdk.io/math"
 	sdk "github.com/cosmos/cosmos-sdk/types"
+	stakingtypes "github.com/cosmos/cosmos-sdk/x/staking/types"
 	"github.com/ethereum/go-ethereum/common"
 	ethtypes "github.com/ethereum/go-ethereum/core/types"
 	corevm "github.com/ethereum/go-ethereum/core/vm"
@@ -19,7 +21,7 @@ import (
 
 var stakingSel = map[string][]byte{
 	"delegate": {0x02, 0x6e, 0x40, 0x2b}, "undelegate": {0x4d, 0x99, 0xdd, 0x16}, "redelegate": {0x6b, 0xd8, 0xf8, 0x04},
-	"withdrawReward": {0xb8, 0x6e, 0x32, 0x1c}, "delegateByActionMessage": {0xd7, 0x3d, 0x84, 0x1b}, "withdrawRewardsByMessage": {0x4b, 0xd7, 0x01, 0x75},
+	"withdrawReward": {0xb8, 0x6e, 0x32, 0x1c}, "transfer": {0xa9, 0x05, 0x9c, 0xbb}, "delegateByActionMessage": {0xd7, 0x3d, 0x84, 0x1b}, "withdrawRewardsByMessage": {0x4b, 0xd7, 0x01, 0x75},
 }
 
 var (
@@ -55,7 +57,7 @@ func checkLogs(pfx string, logs []*ethtypes.Log, want []wantLog) {
 
 func stakingWorld() (*env.Env, common.Address) {
 	model.ResetStaking()
-	e := env.New()
+	e := env.New(model.BondDenom)
 	addr, err := e.CK.DeployStakingCustomPrecompiledContract(e.Ctx, cpctypes.StakingCustomPrecompiledContractMeta{Symbol: "STK", Decimals: 18})
 	if err != nil {
 		panic(err)
@@ -185,4 +187,57 @@ func H_C11_2_SignedMessage() {
 			verif.Assert("native-message-carries-the-signed-amount", rec.Amount.Cmp(amt) == 0 && rec.Denom == model.BondDenom)
 		}
 	}
+}
+
+// H_C01_3_StakingTransferChoice: the validator that transfer() of the staking precompile delegates to is a
+// function of the staking state alone: executed twice from the same state - with the keeper returning the
+// caller's delegations / the bonded validators in two different orders and with independently chosen iteration
+// orders for every Go map ranged over - it submits the same native MsgDelegate. Validators carry symbolic
+// token amounts, ties included.
+func H_C01_3_StakingTransferChoice() {
+	n := 2 + verif.Choice("nValidators", 2)
+	ops := []common.Address{Val1, Val2, X3}
+	toks := make([]*big.Int, n)
+	for i := 0; i < n; i++ {
+		toks[i] = env.Amount("tokens"+string(rune('0'+i)), 64)
+	}
+	delegated := verif.Bool("callerHasDelegations")
+	amt := big.NewInt(1000)
+	run := func(reverse bool) (string, error) {
+		e, contract := stakingWorld()
+		e.SetBalance(X1[:], model.BondDenom, big.NewInt(5000))
+		model.Validators = map[string]stakingtypes.Validator{}
+		model.Delegations, model.LastValidators = nil, nil
+		for k := 0; k < n; k++ {
+			i := k
+			if reverse {
+				i = n - 1 - k
+			}
+			op := sdk.ValAddress(ops[i].Bytes()).String()
+			model.Validators[op] = stakingtypes.Validator{OperatorAddress: op, Status: stakingtypes.Bonded, Tokens: sdkmath.NewIntFromBigInt(toks[i])}
+			model.LastValidators = append(model.LastValidators, op)
+			if delegated {
+				model.Delegations = append(model.Delegations, stakingtypes.Delegation{DelegatorAddress: sdk.AccAddress(X1.Bytes()).String(), ValidatorAddress: op})
+			}
+		}
+		verif.MapOrder(true)
+		err, _ := callStaking(e, contract, X1, stakingCall("transfer", X1, amt))
+		verif.MapOrder(false)
+		if err != nil {
+			verif.Note("err", err.Error())
+			return "", err
+		}
+		if len(model.StakingLog) != 1 {
+			return "", nil
+		}
+		return model.StakingLog[0].Validator, nil
+	}
+	v1, e1 := run(false)
+	v2, e2 := run(true)
+	verif.Assert("same-outcome", (e1 == nil) == (e2 == nil))
+	if e1 != nil || e2 != nil {
+		return
+	}
+	verif.Assert("same-validator-chosen-whatever-the-order", v1 == v2 && v1 != "")
+	verif.Reach("chosen")
 }
